@@ -38,6 +38,15 @@ def setCfg? (s : String) : Option (List Bytes × List Nat) :=
   | [rs, js] => do pure (← (list rs).mapM Hex.decode, ← (list js).mapM String.toNat?)
   | _ => none
 
+/-- the rules (value, text) added in order; `none` if one is rejected -/
+def buildMix (dflt : Option Kind) (rules : List (Nat × Bytes)) : Option (Mix Nat) :=
+  rules.foldl (fun (acc : Option (Mix Nat)) r =>
+    match acc with
+    | none => none
+    | some m => match splitRule dflt r.2 with
+      | none => none
+      | some (k, pat) => some (m.add k pat r.1)) (some {})
+
 /-- `mix <default kind> <rules> <names> <regexp truth table>` -> per name the
 set of values `Match` may return (`a|b`), or `none`; `error` if a rule is rejected. -/
 def handle : List String → String
@@ -45,13 +54,7 @@ def handle : List String → String
     match kind? d, (items rs).mapM rule?, (items ns).mapM Hex.decode, (items tbl).mapM rePair? with
     | some dflt, some rules, some names, some table =>
       let re : Bytes → Bytes → Bool := fun e n => table.any (fun p => p.1 == e && p.2 == n)
-      let built := rules.foldl (fun (acc : Option (Mix Nat)) r =>
-        match acc with
-        | none => none
-        | some m => match splitRule dflt r.2 with
-          | none => none
-          | some (k, pat) => some (m.add k pat r.1)) (some {})
-      match built with
+      match buildMix dflt rules with
       | none => "error"
       | some m =>
         String.intercalate ";" (names.map (fun n =>
@@ -59,6 +62,14 @@ def handle : List String → String
           | [] => "none"
           | vs => String.intercalate "|" (vs.map toString)))
     | _, _, _, _ => "bad-op"
+  | ["len", d, rs] =>
+    -- `MixMatcher.Len` after the rules were added
+    match kind? d, (items rs).mapM rule? with
+    | some dflt, some rules =>
+      match buildMix dflt rules with
+      | none => "error"
+      | some m => toString m.len
+    | _, _ => "bad-op"
   | ["sets", cfgs, ns, tbl] =>
     -- the plugins of one configuration in order -> per set one 0/1 per name; `error` if a set is rejected
     match (items cfgs).mapM setCfg?, (items ns).mapM Hex.decode, (items tbl).mapM rePair? with
